@@ -99,7 +99,13 @@ impl C13 {
         let mut dead = false;
 
         // Epilogue: counts must be final — more frames, a status change, more frames.
+        // (A real transition: through "connecting" and back for apps with the client plugin, a server
+        // stop for a dedicated server.)
         let mut epilogue = vec![S13::Frame { dt_ms: 16 }, S13::Frame { dt_ms: 16 }];
+        epilogue.push(S13::ServerRun(false));
+        epilogue.push(S13::Frame { dt_ms: 16 });
+        epilogue.push(S13::ClientStatus(1));
+        epilogue.push(S13::Frame { dt_ms: 16 });
         epilogue.push(S13::ClientStatus(0));
         epilogue.extend([S13::Frame { dt_ms: 16 }, S13::Frame { dt_ms: 20 }, S13::Frame { dt_ms: 16 }, S13::Frame { dt_ms: 16 }]);
         let n_steps = t.steps.len();
@@ -392,10 +398,10 @@ impl Engine for C13 {
             }
             for _ in 0..r.weighted(&[3, 5, 2]) {
                 if r.chance(55) {
-                    let ev = if r.chance(50) { CEv::Ord } else { CEv::Trig };
+                    let ev = r.pick(&[CEv::Ord, CEv::Trig, CEv::Unord, CEv::Unrel]);
                     steps.push(S13::EmitClient { ev, target: r.chance(40) });
                 } else {
-                    let ev = r.pick(&[SEv::Unord, SEv::Ind, SEv::Trig, SEv::Unrel]);
+                    let ev = r.pick(&[SEv::Unord, SEv::Ind, SEv::Trig, SEv::Unrel, SEv::Ord]);
                     let mode = r.pick(&[M13::Broadcast, M13::ExceptServer, M13::ExceptRemote0, M13::DirectServer, M13::DirectRemote0]);
                     steps.push(S13::EmitServer { ev, mode, target: r.chance(40) });
                 }
